@@ -209,6 +209,13 @@ func checkEvaluate(text string, failAt int) error {
 			problem = fmt.Errorf(format, args...)
 		}
 	}
+	type keptValue struct {
+		v       *lr.Value
+		val     any
+		pos     *lexer.Position
+		call, j int
+	}
+	var kept []keptValue
 	var res *lr.Value
 	var rerr error
 	perr := rec.Guard(func() {
@@ -257,6 +264,31 @@ func checkEvaluate(text string, failAt int) error {
 					}
 				}
 			}
+			// the value objects handed over are kept (as a tree-building callback keeps its children): what they hold
+			// must still be there when the parse is over
+			for j, v := range rhs {
+				if v != nil {
+					kept = append(kept, keptValue{v, v.Val, v.Pos, step, j})
+				}
+			}
+			if step%5 == 3 && len(rhs) > 0 {
+				// a callback may itself parse something (a companion specification): the values it was given must be
+				// the same afterwards
+				before := make([]lr.Value, len(rhs))
+				for j, v := range rhs {
+					if v != nil {
+						before[j] = *v
+					}
+				}
+				if nerr := nestedParse(); nerr != nil {
+					note("a parse started from inside evaluation call %d fails: %v", step, nerr)
+				}
+				for j, v := range rhs {
+					if v != nil && (v.Val != before[j].Val || v.Pos != before[j].Pos) {
+						note("evaluation call %d (production %d): value %d changed while the callback parsed another specification (was %v at %v, is %v at %v)", step, i, j, before[j].Val, before[j].Pos, v.Val, v.Pos)
+					}
+				}
+			}
 			step++
 			if step-1 == failAt {
 				failed = true
@@ -267,6 +299,11 @@ func checkEvaluate(text string, failAt int) error {
 	})
 	if perr != nil {
 		return perr
+	}
+	for _, k := range kept {
+		if k.v.Val != k.val || k.v.Pos != k.pos {
+			note("the value object handed to evaluation call %d as value %d held %v when it was handed over and holds %v after the parse: a callback that keeps its values (a tree builder) finds them altered", k.call, k.j, k.val, k.v.Val)
+		}
 	}
 	if problem != nil {
 		return problem
@@ -291,6 +328,26 @@ func checkEvaluate(text string, failAt int) error {
 	}
 	if step != failAt+1 {
 		return fmt.Errorf("evaluation call %d failed, but %d calls were made in total", failAt, step)
+	}
+	return nil
+}
+
+// nestedParse evaluates a small companion specification with a callback of its own.
+func nestedParse() error {
+	p, err := ebnf.New("nested.ebnf", strings.NewReader("grammar nested;\nNUM = /[0-9]+/\n@left \"+\"\nstart = e ;\ne = e \"+\" e | ( e ) | NUM | ;\n"))
+	if err != nil {
+		return err
+	}
+	n := 0
+	res, err := p.ParseAndEvaluate(func(i int, rhs []*lr.Value) (any, error) {
+		n++
+		return n, nil
+	})
+	if err != nil {
+		return err
+	}
+	if res == nil || res.Val != n {
+		return fmt.Errorf("the nested parse returns %v after %d reductions", res, n)
 	}
 	return nil
 }
